@@ -82,7 +82,7 @@ def judge(call: dict, out: dict) -> list[tuple[str, str]]:
         cls = "default-with-content-returns" if default_returns else "returned-for-non-2xx"
         return [(cls, f"status {s} via {call['transport']}: the call returned {oc.get('type')} instead of raising")]
     if not oc.get("is_http_error") and default_returns:
-        # F40: `case _` goes through the primary strategy's return; a body that does not fit the success type fails to decode instead
+        # the shape of the repaired F40: `case _` went through the primary strategy's return; a body that does not fit the success type failed to decode
         return [("default-with-content-returns", f"status {s} via passthrough: the default arm tried to return a value and raised {oc.get('type')}")]
     if not oc.get("is_http_error"):
         return [("not-http-error", f"status {s} via {call['transport']}: raised {oc.get('type')} ({oc.get('msg', '')[:120]}), not an HTTPError")]
@@ -99,9 +99,11 @@ def judge(call: dict, out: dict) -> list[tuple[str, str]]:
     return bad
 
 
-# failure class -> recorded finding; a class without an entry is a VIOLATION (F15, the catch-all raising the base class for an
-# undeclared 4xx/5xx status, is repaired: "passthrough-undeclared-base-class" is no longer expected)
-CLASSES = {"bundled-base-class": "F14", "default-with-content-returns": "F40"}
+# failure class -> recorded finding; a class without an entry is a VIOLATION.  F15 (the catch-all raising the base class for an
+# undeclared 4xx/5xx status: "passthrough-undeclared-base-class") and F40 (a `default` response with content returning for
+# every undeclared status: "default-with-content-returns") are repaired and no longer expected; the witness document and the
+# generator options that trigger them (default_response, error_responses, pass-through transport) are kept.
+CLASSES = {"bundled-base-class": "F14"}
 
 
 def check(run: Run, ctx) -> None:
